@@ -394,6 +394,12 @@ func (core *JApiCore) addRequest(d *directive.Directive) *jerr.JApiError {
 			core.catalog.UserTypes); err == nil {
 			err = core.catalog.AddRequestBody(s, bodyFormat, *d)
 		}
+		// The schema is the parameter, there is no body to point into: the
+		// message of the schema library, without its own rendering of a location.
+		var e kit.Error
+		if errors.As(err, &e) {
+			return d.KeywordError(e.Message())
+		}
 
 	case sn == notation.SchemaNotationJSight && typ == "" && d.BodyCoords.IsSet():
 		if s, err = catalog.NewExchangeJSightSchema(d.BodyCoords.Read(), core.userTypes, core.rules, core.catalog.UserTypes); err == nil { //nolint:lll
